@@ -1092,3 +1092,18 @@ def describe(case):  # noqa: F811
 
 def buckets(case, ans):  # noqa: F811
     return _pair_buckets(case, ans) if case.get("pair") else _single["buckets"](case, ans)
+
+
+RULE += (" PAIR STREAM (two LIVE instances; props/pairlib.py, channel `pair`): 450 (quick) cases hold two configs from ONE template (seed / "
+         "duplicate-text / plain configs; B = A with children re-texted / re-indented / commented / swapped / inserted / deleted / moved, 15 % "
+         "identical), parsed with the same or a different syntax (hence indent width 1 / 2), ignore_blank_lines and auto_commit. BOTH are "
+         "parsed first; a history (random / directed / input-form operations, then commit) runs on A with a look at B before every operation "
+         "and after the last -- texts, line numbers, links, the seven family views, two recursive searches --, then a history on B (half of "
+         "the time the same calls) with the same watch on A. The histories are run by editlib.run_history itself (handed the live instance "
+         "instead of a fresh parse), judged by the oracle above on their own case and compared with the model's answer for that history "
+         "alone; every look is compared with the model's tree / search answer for the texts the watched instance holds, must not change "
+         "while only the other instance is edited, and must be the state the instance's own history starts / ends with.")
+LEVEL_NOTE += (" Two live instances: the edit machine is a function of one history (channel `pair` only carries ordinary requests), so 'an "
+               "edit of A changes nothing of B and is not influenced by B' holds for the model by construction and is MEASURED for the code by "
+               "the pair stream (seeded C06e -- an lru_cache on the indent width keyed by the line -- and hand mutations of all_children / "
+               "family_endpoint memos shared between instances are reported by it).")
